@@ -28,6 +28,7 @@ DESIGN = dict(
     MemoRootUnsync=False,   # scope.go RootObject looks the root up on every call (no memo)
     ReuseInputContainer=False,  # list.go always builds a new slice for the unserialised items
     ReleaseOutsideLock=False,   # step.go never deletes from the run table
+    CacheEmptyUnsync=False,     # object.go builds the empty value of a field for every comparison
     NoStepMutex=False,      # step.go 200-223 holds initializerMutex
     EnumEarlyReturn=False,  # enum.go: repaired (return nil -> continue)
 )
@@ -43,6 +44,7 @@ CONCRETE = {
     ("units0", "rebuilt"): ["int_chars", "int_pct", "float_pct", "int_custom0"],
     ("objmap", "fresh"): ["objmap"], ("objmap", "rebuilt"): ["objmap", "plugin_input"], ("objmap", "derived"): ["objmap"],
     ("steps", "derived"): ["steps"], ("steps", "plain"): ["steps"],
+    ("patnil", "fresh"): ["patnil"], ("patnil", "rebuilt"): ["patnil"], ("emptydef", "fresh"): ["emptydef"],
     ("listarg", "fresh"): ["list_oneof", "list_any", "list_objmap", "map_objmap"],
     ("listarg", "rebuilt"): ["list_oneof", "list_any", "list_objmap", "map_objmap"],
     ("objstruct", "fresh"): ["objstruct"], ("objstruct", "rebuilt"): ["objstruct"],
